@@ -7,8 +7,27 @@ traversal, stack order of combined instrumentations, serial order of mutations).
 STAGES = ("query", "parsing", "validation", "execution")
 
 
+HOOKS_ON_INSTANCES = [False]   # switch: odd-tagged recorders carry their hooks on the instance, not on the class
+
+
 def make_instrumentation(log, tag):
     from py_gql.execution import Instrumentation
+
+    if HOOKS_ON_INSTANCES[0] and isinstance(tag, int) and tag < 100 and tag % 2 == 1:
+        HOOKS_ON_INSTANCES[0] = False
+        try:
+            template = make_instrumentation(log, tag)
+        finally:
+            HOOKS_ON_INSTANCES[0] = True
+
+        class FromCallbacks(Instrumentation):
+            """Overrides nothing itself: every hook is an attribute of the instance."""
+
+            def __init__(self, **callbacks):
+                for name, fn in callbacks.items():
+                    setattr(self, name, fn)
+
+        return FromCallbacks(**dict((h, getattr(template, h)) for h in HOOKS))
 
     class Rec(Instrumentation):
         def on_query_start(self):
